@@ -150,6 +150,67 @@ impl Report {
             }
         }
     }
+    /// serialise what a worker process gathered (one record per line) for the parent to merge
+    pub fn export(&self) -> String {
+        let mut o = String::new();
+        o.push_str(&format!("E\t{}\n", self.evals()));
+        o.push_str(&format!("I\t{}\n", self.inconclusive.load(Ordering::Relaxed)));
+        for d in self.distinct.lock().unwrap().iter() {
+            o.push_str(&format!("D\t{:x}\n", d));
+        }
+        for (k, v) in self.counters.lock().unwrap().iter() {
+            o.push_str(&format!("C\t{}\t{}\n", v, k.replace('\t', " ").replace('\n', " ")));
+        }
+        for s in self.samples.lock().unwrap().iter() {
+            o.push_str(&format!("S\t{}\n", json_str(s)));
+        }
+        for s in self.notes.lock().unwrap().iter() {
+            o.push_str(&format!("N\t{}\n", json_str(s)));
+        }
+        for (sig, b) in self.buckets.lock().unwrap().iter() {
+            o.push_str(&format!("B\t{}\t{}\t{:x}\t{}\t{}\n", b.count, b.core_count, b.fp, sig.replace('\t', " "), b.what.replace('\t', " ").replace('\n', " ")));
+            for w in &b.witnesses {
+                o.push_str(&format!("W\t{}\t{}\n", sig.replace('\t', " "), w.replace('\n', " ")));
+            }
+        }
+        o
+    }
+    pub fn import(&self, text: &str) {
+        for line in text.lines() {
+            let f: Vec<&str> = line.splitn(6, '\t').collect();
+            match f[0] {
+                "E" => self.eval(f.get(1).and_then(|x| x.parse().ok()).unwrap_or(0)),
+                "I" => {
+                    self.inconclusive.fetch_add(f.get(1).and_then(|x| x.parse().ok()).unwrap_or(0), Ordering::Relaxed);
+                }
+                "D" => {
+                    if let Some(h) = f.get(1).and_then(|x| u64::from_str_radix(x, 16).ok()) {
+                        self.distinct(h);
+                    }
+                }
+                "C" if f.len() >= 3 => self.count(f[2], f[1].parse().unwrap_or(0)),
+                "S" if f.len() >= 2 => self.sample(unjson(f[1])),
+                "N" if f.len() >= 2 => self.note(unjson(f[1])),
+                "B" if f.len() >= 6 => {
+                    let mut b = self.buckets.lock().unwrap();
+                    let e = b.entry(f[4].to_string()).or_insert(Bucket { count: 0, core_count: 0, fp: 0, what: f[5].to_string(), witnesses: Vec::new() });
+                    e.count += f[1].parse::<u64>().unwrap_or(0);
+                    e.core_count += f[2].parse::<u64>().unwrap_or(0);
+                    e.fp = e.fp.wrapping_add(u64::from_str_radix(f[3], 16).unwrap_or(0));
+                }
+                "W" if f.len() >= 3 => {
+                    let rest: Vec<&str> = line.splitn(3, '\t').collect();
+                    let mut b = self.buckets.lock().unwrap();
+                    if let Some(e) = b.get_mut(rest[1]) {
+                        if e.witnesses.len() < 3 {
+                            e.witnesses.push(rest[2].to_string());
+                        }
+                    }
+                }
+                _ => {}
+            }
+        }
+    }
     pub fn failure_count(&self) -> u64 {
         self.buckets.lock().unwrap().values().map(|b| b.count).sum()
     }
@@ -482,4 +543,33 @@ pub fn hnum(parts: &[u64]) -> u64 {
         }
     }
     h
+}
+
+/// inverse of util::json_str for the escapes it produces
+pub fn unjson(s: &str) -> String {
+    let t = s.trim();
+    let t = t.strip_prefix('"').unwrap_or(t);
+    let t = t.strip_suffix('"').unwrap_or(t);
+    let mut o = String::new();
+    let mut it = t.chars();
+    while let Some(c) = it.next() {
+        if c != '\\' {
+            o.push(c);
+            continue;
+        }
+        match it.next() {
+            Some('n') => o.push('\n'),
+            Some('r') => o.push('\r'),
+            Some('t') => o.push('\t'),
+            Some('u') => {
+                let h: String = (0..4).filter_map(|_| it.next()).collect();
+                if let Some(ch) = u32::from_str_radix(&h, 16).ok().and_then(char::from_u32) {
+                    o.push(ch);
+                }
+            }
+            Some(x) => o.push(x),
+            None => {}
+        }
+    }
+    o
 }
